@@ -6,7 +6,7 @@
     for that output.  No normal form of ST-MOCs is assumed. *)
 From Coq Require Import List NArith Lia Bool.
 From MOC.Base Require Import RangeSet.
-From MOC.Model Require Import Qty Ops1D Expr Repr.
+From MOC.Model Require Import Qty Ops1D Expr Query Build Repr.
 Import ListNotations.
 Open Scope N_scope.
 
@@ -278,3 +278,165 @@ Proof.
     specialize (H1 e He). rewrite !andb_true_iff, !nonemptyb_spec, !valid_mocb_spec. tauto.
 Qed.
 
+
+(** ---------- observations (property C09) ---------- *)
+(** an observation: time range [ta,tb) at the maximum time depth + a space coverage;
+    at time depth dt it denotes the depth-dt time cells meeting [ta,tb) *)
+Definition obs := ((N * N) * list range)%type.
+
+Definition obs_elem (wt dt : N) (o : obs) : elem :=
+  ([(down (shift Time wt dt) (fst (fst o)), up (shift Time wt dt) (snd (fst o)))], snd o).
+
+Definition obs_moc (wt dt : N) (l : list obs) : stmoc := map (obs_elem wt dt) l.
+
+Definition space_cell (ws ds c : N) : list range := [cell_range Hpx ws ds c].
+
+Theorem obs_pointset wt dt l t s :
+  Forall (fun o => fst (fst o) < snd (fst o)) l ->
+  (cov2 (obs_moc wt dt l) t s <->
+   exists o, In o l /\
+     (exists y, (fst (fst o) <= y /\ y < snd (fst o)) /\
+                y / 2 ^ shift Time wt dt = t / 2 ^ shift Time wt dt) /\
+     cov (snd o) s).
+Proof.
+  intros Hne. unfold cov2, obs_moc. rewrite Forall_forall in Hne. split.
+  - intros [e [Hin [Ht Hs]]]. apply in_map_iff in Hin. destruct Hin as [o [<- Ho]].
+    exists o. split; [exact Ho|]. split; [|exact Hs].
+    simpl in Ht. apply cov_cons in Ht. destruct Ht as [Ht|Ht]; [|destruct (cov_nil _ Ht)].
+    unfold inr in Ht; simpl in Ht. apply (down_up_range _ _ _ _ (Hne o Ho)). exact Ht.
+  - intros [o [Ho [Ht Hs]]]. exists (obs_elem wt dt o). split; [apply in_map; exact Ho|].
+    split; [|exact Hs]. simpl. apply cov_cons. left. unfold inr; simpl.
+    apply (down_up_range _ _ _ _ (Hne o Ho)). exact Ht.
+Qed.
+
+Lemma cov2_incl X Y t s : (forall e, In e X -> In e Y) -> cov2 X t s -> cov2 Y t s.
+Proof. intros H [e [Hin Hc]]. exists e. split; [apply H; exact Hin|exact Hc]. Qed.
+
+(** the point set only depends on the SET of observations: order, duplicates and
+    batching cannot matter *)
+Theorem obs_set_only wt dt l l' t s : (forall o, In o l <-> In o l') ->
+  (cov2 (obs_moc wt dt l) t s <-> cov2 (obs_moc wt dt l') t s).
+Proof.
+  intros H. unfold obs_moc. split; apply cov2_incl; intros e He; apply in_map_iff in He;
+    destruct He as [o [<- Ho]]; apply in_map; apply H; exact Ho.
+Qed.
+
+(** ---------- the range-2D form (one time range per entry; C09 second path, C10) ---------- *)
+(** entries: disjoint increasing non-empty time ranges, each with a non-empty canonical space
+    coverage, and two touching entries never carry the same space coverage (fused) *)
+Fixpoint r2d_ok (ws ds : N) (lo : N) (prev : option (list range)) (X : stmoc) : Prop :=
+  match X with
+  | [] => True
+  | e :: X' =>
+      match fst e with
+      | [r] => lo <= fst r /\ fst r < snd r /\ snd e <> [] /\ ValidMoc Hpx ws ds (snd e) /\
+               (fst r = lo -> prev <> Some (snd e)) /\
+               r2d_ok ws ds (snd r) (Some (snd e)) X'
+      | _ => False
+      end
+  end.
+
+Definition opt_ranges_eqb (p : option (list range)) (l : list range) : bool :=
+  match p with None => false | Some l' => ranges_eqb l' l end.
+
+Fixpoint r2d_okb (ws ds : N) (lo : N) (prev : option (list range)) (X : stmoc) : bool :=
+  match X with
+  | [] => true
+  | e :: X' =>
+      match fst e with
+      | [r] => (lo <=? fst r) && (fst r <? snd r) && nonemptyb (snd e) && valid_mocb Hpx ws ds (snd e) &&
+               negb ((fst r =? lo) && opt_ranges_eqb prev (snd e)) &&
+               r2d_okb ws ds (snd r) (Some (snd e)) X'
+      | _ => false
+      end
+  end.
+
+Theorem r2d_okb_spec ws ds X : forall lo prev, r2d_okb ws ds lo prev X = true <-> r2d_ok ws ds lo prev X.
+Proof.
+  induction X as [|e X IH]; intros lo prev; simpl; [tauto|].
+  destruct (fst e) as [|r [|r' t]]; try (split; [discriminate|tauto]).
+  rewrite !andb_true_iff, N.leb_le, N.ltb_lt, nonemptyb_spec, valid_mocb_spec, IH.
+  rewrite negb_true_iff, andb_false_iff, N.eqb_neq.
+  assert (E : opt_ranges_eqb prev (snd e) = false <-> prev <> Some (snd e)).
+  { destruct prev as [p|]; simpl; [|split; [discriminate|reflexivity]].
+    split.
+    - intros H1 H2. inversion H2; subst. assert (ranges_eqb (snd e) (snd e) = true) by (apply ranges_eqb_spec; reflexivity). congruence.
+    - intros H1. apply not_true_is_false. intros H2. apply ranges_eqb_spec in H2. subst. congruence. }
+  rewrite E. split.
+  - intros (((((H1 & H2) & H3) & H4) & H5) & H6).
+    refine (conj H1 (conj H2 (conj H3 (conj H4 (conj _ H6))))).
+    intros Heq. destruct H5 as [H5|H5]; [congruence|exact H5].
+  - intros (H1 & H2 & H3 & H4 & H5 & H6).
+    refine (conj (conj (conj (conj (conj H1 H2) H3) H4) _) H6).
+    destruct (N.eq_dec (fst r) lo) as [Heq|Hne]; [right; apply H5; exact Heq|left; exact Hne].
+Qed.
+
+(** ---------- lookups and folds (property C10) ---------- *)
+Definition cov2b (X : stmoc) (t s : N) : bool := existsb (fun e => covb (fst e) t && covb (snd e) s) X.
+
+Theorem cov2b_spec X t s : cov2b X t s = true <-> cov2 X t s.
+Proof.
+  unfold cov2b, cov2. rewrite existsb_exists. split; intros [e [Hin H]]; exists e; (split; [exact Hin|]).
+  - apply andb_true_iff in H. rewrite !covb_spec in H. exact H.
+  - apply andb_true_iff. rewrite !covb_spec. exact H.
+Qed.
+
+(** fold on a time MOC: union of the space coverages at the instants of T *)
+Definition tfold (X : stmoc) (T : list range) : list range :=
+  fold_left (fun acc e => if Query.intersects (fst e) T then union acc (snd e) else acc) X [].
+
+Lemma tfold_fold ub X T : forall acc, WF ub X -> Valid ub acc ->
+  Forall (fun e => Canon (fst e)) X -> Canon T ->
+  let r := fold_left (fun acc e => if Query.intersects (fst e) T then union acc (snd e) else acc) X acc in
+  Valid ub r /\ forall s, cov r s <-> cov acc s \/ exists t, cov T t /\ cov2 X t s.
+Proof.
+  induction X as [|e X IH]; intros acc Hwf Hacc Hc HT; simpl.
+  - split; [exact Hacc|]. intros s. split; [tauto|]. intros [H|[t [_ [e [[] _]]]]]. exact H.
+  - inversion Hwf as [|? ? He HX]; subst. inversion Hc as [|? ? Hce HcX]; subst.
+    destruct (Query.intersects (fst e) T) eqn:E.
+    + destruct (IH (union acc (snd e)) HX (valid_union ub _ _ Hacc He) HcX HT) as [V C].
+      split; [exact V|]. intros s. rewrite C. rewrite (valid_union_cov ub) by assumption.
+      destruct (proj1 (Query.intersects_spec _ _ Hce HT) E) as [t0 [E1 E2]].
+      split.
+      * intros [[H|H]|[t [Ht [e' [Hin H]]]]]; [tauto| |right; exists t; split; [exact Ht|exists e'; simpl; tauto]].
+        right. exists t0. split; [exact E2|]. exists e. simpl. tauto.
+      * intros [H|[t [Ht [e' [[<-|Hin] [H1 H2]]]]]]; [tauto|tauto|].
+        right. exists t. split; [exact Ht|]. exists e'. tauto.
+    + destruct (IH acc HX Hacc HcX HT) as [V C]. split; [exact V|]. intros s. rewrite C.
+      split.
+      * intros [H|[t [Ht [e' [Hin H]]]]]; [tauto|right; exists t; split; [exact Ht|exists e'; simpl; tauto]].
+      * intros [H|[t [Ht [e' [[<-|Hin] [H1 H2]]]]]]; [tauto| |right; exists t; split; [exact Ht|exists e'; tauto]].
+        exfalso. assert (Query.intersects (fst e) T = true); [|congruence].
+        apply (proj2 (Query.intersects_spec _ _ Hce HT)). exists t. tauto.
+Qed.
+
+Theorem tfold_spec ub X T s : WF ub X -> Forall (fun e => Canon (fst e)) X -> Canon T ->
+  (cov (tfold X T) s <-> exists t, cov T t /\ cov2 X t s).
+Proof.
+  intros Hwf Hc HT. destruct (tfold_fold ub X T [] Hwf (valid_nil ub) Hc HT) as [_ C].
+  unfold tfold. rewrite C. split; [intros [H|H]; [destruct (cov_nil _ H)|exact H]|tauto].
+Qed.
+
+(** fold on a space MOC: the instants at which the (non-empty) space coverage of the
+    entry lies inside S — as the implementation defines it, entry by entry *)
+Definition sfold (X : stmoc) (S : list range) : list range :=
+  canon_of (flat_map (fun e => if nonemptyb (snd e) && Query.contains S (snd e) then fst e else []) X).
+
+Theorem sfold_spec X S t : Forall (fun e => Canon (snd e)) X -> Canon S ->
+  (cov (sfold X S) t <->
+   exists e, In e X /\ cov (fst e) t /\ snd e <> [] /\ forall s, cov (snd e) s -> cov S s).
+Proof.
+  intros Hc HS. unfold sfold. rewrite canon_of_cov. unfold cov at 1. rewrite Forall_forall in Hc.
+  split.
+  - intros [r [Hin Hr]]. apply in_flat_map in Hin. destruct Hin as [e [He Hre]].
+    destruct (nonemptyb (snd e) && Query.contains S (snd e)) eqn:E; [|destruct Hre].
+    apply andb_true_iff in E. destruct E as [E1 E2]. apply nonemptyb_spec in E1.
+    pose proof (proj1 (Query.contains_spec _ _ HS (Hc e He)) E2) as E3.
+    exists e. split; [exact He|]. split; [exists r; tauto|]. split; [exact E1|exact E3].
+  - intros [e [He [[r [Hr1 Hr2]] [Hne Hsub]]]]. exists r. split; [|exact Hr2].
+    apply in_flat_map. exists e. split; [exact He|].
+    assert (E : nonemptyb (snd e) && Query.contains S (snd e) = true).
+    { apply andb_true_iff. split; [apply nonemptyb_spec; exact Hne|].
+      apply (proj2 (Query.contains_spec _ _ HS (Hc e He))). exact Hsub. }
+    rewrite E. exact Hr1.
+Qed.
